@@ -86,12 +86,12 @@ theorem lcRow_chunk (asg : Cell → F) (k off shift : Nat) (chunk : List Nat) (h
       + coeffs.getD 2 0 * asg (advc k off 3) + coeffs.getD 3 0 * asg (advc k off 4)
       = chunkVal asg k off 1 shift chunk := by
   match chunk, h4 with
-  | [], _ => simp [limbCoeffsAux, chunkVal]
-  | [a], _ => simp [limbCoeffsAux, chunkVal]; grind
-  | [a, b], _ => simp [limbCoeffsAux, chunkVal]; grind
-  | [a, b, c], _ => simp [limbCoeffsAux, chunkVal]; grind
-  | [a, b, c, d], _ => simp [limbCoeffsAux, chunkVal]; grind
-  | _ :: _ :: _ :: _ :: _ :: _, h => simp at h; omega
+  | [], _ => simp [limbCoeffsAux, chunkVal] <;> grind
+  | [a], _ => simp [limbCoeffsAux, chunkVal] <;> grind
+  | [a, b], _ => simp [limbCoeffsAux, chunkVal] <;> grind
+  | [a, b, c], _ => simp [limbCoeffsAux, chunkVal] <;> grind
+  | [a, b, c, d], _ => simp [limbCoeffsAux, chunkVal] <;> grind
+  | _ :: _ :: _ :: _ :: _ :: _, h => simp at h
 
 theorem rowsHold_tag_irrelevant_gates (asg : Cell → F) (k off : Nat) (row : Row F) (t : Option Nat) :
     ({ row with tag := t } : Row F).gatesHold asg k off ↔ row.gatesHold asg k off := Iff.rfl
@@ -145,8 +145,7 @@ theorem decompRows_sound (hR : RangeSound R) (asg : Cell → F) (nr k : Nat) (h0
       obtain ⟨N2, hN2, hv2⟩ := ih _ hlen (sizes.drop nr) (shift + (sizes.take nr).sum) (off + 1)
         (sizesOK_drop nr sizes hok) hrest rfl
       have hsum : sizes.sum = (sizes.take nr).sum + (sizes.drop nr).sum := by
-        conv => lhs; rw [← List.take_append_drop nr sizes]
-        simp
+        rw [← List.sum_append, List.take_append_drop]
       refine ⟨N1 + 2 ^ (sizes.take nr).sum * N2, ?_, ?_⟩
       · rw [hsum, Nat.pow_add]
         have : N2 + 1 ≤ 2 ^ (sizes.drop nr).sum := hN2
